@@ -333,6 +333,7 @@ class Context:
         self.axioms = []    # (text, symbols) always-included if all symbols declared & used
         self.counter = 0
         self.sorts = {"U"}
+        self.qtag = {}      # forall text -> name of the clause it came from
         self.qreg = {}      # forall text -> (bound variable, inner text) for instantiation
 
     def fresh(self, base, sort):
@@ -366,7 +367,7 @@ class Context:
     def axiom(self, term):
         self.axioms.append((term.s, symbols(term.s)))
 
-    def instantiate(self, text, terms, keep=True):
+    def instantiate(self, text, terms, keep=True, only_tag=None):
         """add instances of registered universal hypotheses occurring in text;
         with keep=False the quantified hypothesis itself is dropped (weaker, quantifier-free)"""
         if "(forall" not in text:
@@ -375,25 +376,32 @@ class Context:
         for q in sorted(self.qreg, key=len, reverse=True):
             if q in text:
                 v, inner = self.qreg[q]
+                if only_tag is not None and self.qtag.get(q) not in (None, only_tag):
+                    text = text.replace(q, "true")      # hypothesis dropped in the focused stage
+                    continue
                 pat = re.compile(r"(?<![\w!.])" + re.escape(v) + r"(?![\w!.])")
                 insts = [pat.sub(lambda m, t=t: t, inner) for t in terms]
                 parts = ([q] if keep else []) + insts
                 text = text.replace(q, "(and true %s)" % " ".join(parts))
         return text
 
-    def script(self, asserts, get_values=(), logic="ALL", inst_terms=(), keep_quantifiers=True):
+    def script(self, asserts, get_values=(), logic="ALL", inst_terms=(), keep_quantifiers=True, extra_terms=True, only_tag=None):
         """asserts: list of T (Bool). Only needed declarations are emitted.
         The last assert is the negated goal and is never weakened."""
         terms = list(inst_terms)
-        if terms or any("(forall" in a.s for a in asserts[:-1]):
+        if any("(forall" in a.s for a in asserts[:-1]):
+            blob = " ".join(a.s for a in asserts)
+            terms += sorted(set(re.findall(r"(?<![\w!.])inst_[\w!.]+", blob)))
+        if extra_terms and (terms or any("(forall" in a.s for a in asserts[:-1])):
             # further instantiation candidates: last positions of sequences, neighbours of skolems
             blob = " ".join(a.s for a in asserts)
             extra = set(re.findall(r"\(- \(seq\.len [^\s()]+\) 1\)", blob))
+            extra |= set(re.findall(r"(?<![\w!.])inst_[\w!.]+", blob))
             for t in list(inst_terms):
                 extra.add("(- %s 1)" % t)
                 extra.add("(+ %s 1)" % t)
             terms += sorted(extra)[:12] + ["0"]
-        texts = [self.instantiate(a.s, terms, keep_quantifiers) for a in asserts[:-1]] + [asserts[-1].s]
+        texts = [self.instantiate(a.s, terms, keep_quantifiers, only_tag) for a in asserts[:-1]] + [asserts[-1].s]
         used = set()
         for t in texts:
             used |= symbols(t)
